@@ -72,6 +72,13 @@ static inline void g_snap_take(struct c02_snap *g, const ELEM *p)
 #define C02_INV_RSS_K(self, n, i) C02_INV_RSS1(g_k, g_rs.sk, g_rs.vk, self, n, i)
 #define C02_INV_RSS_J(self, n, i) C02_INV_RSS1(g_j, g_rs.sj, g_rs.vj, self, n, i)
 
+/* ---- vector::erase(first, last), loop 0: for (i = 0; i < sz; ++i) destructor(first + i) */
+#define C02_INV_ER1(gi, s0, v0, self, first, i)                                                                            \
+    (!((gi) < (self)->m_capacity) ||                                                                                       \
+     C02_IS(&(self)->m_data[gi], ((gi) >= C02_IDX(first) && (gi) - C02_IDX(first) < (i)) ? ELEM_RAW : (s0), v0))
+#define C02_INV_ER_K(self, first, i) C02_INV_ER1(g_k, g_er.sk, g_er.vk, self, first, i)
+#define C02_INV_ER_J(self, first, i) C02_INV_ER1(g_j, g_er.sj, g_er.vj, self, first, i)
+
 /* ================================================================== harness helpers
  * c02_vec_any: an ARBITRARY state satisfying VEC(v): m_data == NULL && cap == 0 && size == 0, or m_data is a block
  * of exactly cap slots obtained from the allocator, size <= cap, slot k < size LIVE, slot size <= k < cap RAW -
@@ -101,8 +108,8 @@ static inline void c02_vec_any(struct vector *v, size_t cap, size_t size, int is
 #endif
 }
 
-/* VEC(v) after the call, in two groups */
-static inline void c02_vec_check(const struct vector *v)
+/* VEC(v) after the call, in two groups (lifetime_on == 0: only the bounds group, used by carved-out known-finding runs) */
+static inline void c02_vec_check_ex(const struct vector *v, int lifetime_on)
 {
     if (v->m_data == NULL) {
         __CPROVER_assert(v->m_capacity == 0 && v->m_size == 0, "bounds: VEC: a vector without a block has capacity == 0 and size == 0");
@@ -111,6 +118,7 @@ static inline void c02_vec_check(const struct vector *v)
     int b = g_blk_find(v->m_data);
     __CPROVER_assert(b >= 0 && !g_blk_freed[b] && g_blk_n[b] == v->m_capacity, "bounds: VEC: m_data is an unreleased allocator block of exactly capacity() slots");
     __CPROVER_assert(v->m_size <= v->m_capacity, "bounds: VEC: size() <= capacity()");
+    if (!lifetime_on) return;
 #ifdef REPLAY
     for (size_t i = 0; i < v->m_capacity; i++) {
         if (i < v->m_size) __CPROVER_assert(ELEM_ST(&v->m_data[i]) == ELEM_LIVE, "lifetime: VEC: every slot below size() holds a live element");
@@ -123,6 +131,7 @@ static inline void c02_vec_check(const struct vector *v)
     }
 #endif
 }
+static inline void c02_vec_check(const struct vector *v) { c02_vec_check_ex(v, 1); }
 /* every allocator block is either released or owned by one of the (at most two) vectors of the scenario */
 static inline void c02_no_leak(const struct vector *a, const struct vector *b)
 {
